@@ -1,4 +1,7 @@
 mod capture;
+mod codec;
+mod gen_codec;
+mod gen;
 mod simsock;
 mod util;
 mod wsuite;
@@ -27,6 +30,12 @@ fn run_cases(cases: &str, out: &str, dir: &str) {
         let res = match toks[0] {
             "send" => wsuite::run_send(&toks, &dir, &mut cap),
             "recv" => wsuite::run_recv(&toks, &dir, &mut cap),
+            "dec" => codec::run_dec(&toks),
+            "enc" => codec::run_enc(&toks),
+            "opc" => codec::run_opc(&toks),
+            "erc" => codec::run_erc(&toks),
+            "optname" => codec::run_optname(&toks),
+            "lowersweep" => codec::run_lowersweep(&toks),
             other => panic!("unknown case kind {other}"),
         };
         writeln!(w, "{res}").unwrap();
@@ -41,6 +50,15 @@ fn main() {
     }
     match args[1].as_str() {
         "run" if args.len() == 5 => run_cases(&args[2], &args[3], &args[4]),
+        "gen" if args.len() == 7 => {
+            // gen <suite> <seed> <count> <tier> <outfile>
+            let lines = gen::generate(&args[2], args[3].parse().unwrap(), args[4].parse().unwrap(), &args[5]);
+            let mut w = std::io::BufWriter::new(std::fs::File::create(&args[6]).unwrap());
+            for l in lines {
+                writeln!(w, "{l}").unwrap();
+            }
+            w.flush().unwrap();
+        }
         _ => usage(),
     }
 }
